@@ -649,11 +649,16 @@ func (t *fnTrans) missingSites() {
 		have[s+".then"] = true
 		have[s+".else"] = true
 	}
+	var present []string
+	for _, s := range t.sites {
+		present = append(present, s)
+	}
+	sort.Strings(present)
 	check := func(label string, sl specLine) {
 		if have[label] {
 			return
 		}
-		o := t.oblige("contract", fmt.Sprintf("%s:%d:missing-site", sl.file, sl.line), token.NoPos, "false", "the code no longer has the site "+label+" this contract clause is attached to ["+sl.text+"]")
+		o := t.oblige("contract", fmt.Sprintf("%s:%d:missing-site", sl.file, sl.line), token.NoPos, "false", "the code no longer has the site "+label+" this contract clause is attached to ["+sl.text+"]; sites present: "+strings.Join(present, " "))
 		o.Trivial = false
 		o.Reach = "true"
 	}
